@@ -2,6 +2,7 @@ CONSTANTS Big = FALSE CP = 67 CB = 7 CN = 79 CGx = 2 CGy = 22
 WifKeys = {0,1,78,79,80}
 WifSuffixLens = {0,1}
 LongSuffixLen = 64
+LongEvery = 1
 B64Bytes = {0,255}
 B64Chars = {65,61}
 B64MaxChars = 4
@@ -12,8 +13,7 @@ INIT Init
 NEXT Next
 INVARIANT Sec1AcceptExact
 INVARIANT Sec1RoundTrip
-INVARIANT WifRefusesInvalidKey
-INVARIANT WifRoundTrip
+INVARIANT WifExact
 INVARIANT WifAcceptIsImage
 INVARIANT PemPrivExact
 INVARIANT PemPubExact
